@@ -686,12 +686,13 @@ TECHNIQUE = ("Coq proofs about a token-level model of the printer, the syntax ch
              "correspondence against the real functions under ASan/UBSan")
 LEVEL_TEXT = ("Partial. Model: printer (all scalar types incl. time tags, range conversion with threshold 5, N x value and a b ... c "
               "forms, arrays incl. nested ones, messages), checker and scanner (incl. ellipsis handling, arrays, time tags, messages). "
-              "Proved (Properties_C10.v, 34 theorems): for EVERY option record (compression on or off) and unbounded lists of values "
+              "Proved (Properties_C10.v, 36 theorems): for EVERY option record (compression on or off) and unbounded lists of values "
               "AND ARRAYS OF VALUES in any order (C10_roundtrip_any_partial, C10_message_any_partial over lists of TS v / TA type "
               "elements; runs directly after arrays, five or more equal arrays printed Nx[...], empty arrays) - values = int32/int64 "
               "over the full range, chars, true/false/nil/inf, strings and quoted symbols, colours, MIDI, symbols printed bare, blobs, "
               "and with the lossless option every finite float and double: returned length, checker count = slots written, whole text "
-              "consumed, slots expand (also inside arrays) to the input. Side conditions = the classifier's predicates: +0.0 and -0.0 "
+              "consumed, slots expand (also inside arrays) to the input; the printer model is total on that class (C10_print_any_total), so "
+              "the theorems speak about every such list. Side conditions = the classifier's predicates: +0.0 and -0.0 "
               "of one type do not both occur (nozmix over all values, signed-zero-run), no two dots in a row in strings/symbols "
               "(coarser than ellipsis-in-string-before-range, which needs three), homogeneous non-nested arrays. No condition on the "
               "position of arrays and runs is left for printed text; for hand-written text C10_mixed_reads_partial excludes exactly a "
